@@ -31,10 +31,15 @@ Step ==
          LET k == KindOf(E[4]) IN
          IF k = "none" \/ E[3] = 0 THEN bad' = Threads /\ UNCHANGED fvars
          (* a queue whose subscribe() call has begun may already be in the registry (the call has not returned yet) *)
+         (* C08: a delivery thread hands over the event it took LAST - an event taken earlier and kept aside (a batch) would be    *)
+         (* delivered after events that were still waiting in the fabric, possibly more urgent ones, when it is finally handed over *)
+         ELSE IF inflight[k] # <<>> /\ inflight[k][1] # E[3] THEN bad' = {"OutOfTurn"} /\ UNCHANGED fvars
          ELSE IF ~DeliverOK(k, E[2], E[3]) /\ ~(inflight[k] # <<>> /\ inflight[k][1] = E[3] /\ <<E[2], inflight[k][2], k>> \in called)
               THEN bad' = {"NotSubscribed"} /\ UNCHANGED fvars
          ELSE Deliver(k, E[2], E[3]) /\ bad' = Threads \cup Chk(<<E[3], E[2], k>> \notin delivered, "Twice")
     [] E[1] = "ret" /\ E[2] = "start" -> Started /\ bad' = Threads \cup Chk(NF = 1 /\ NL = 1, "StartFailed")
+    (* start() raised because a thread could not be started: whatever it did start stays the fabric's; nothing is promised yet *)
+    [] E[1] = "ret" /\ E[2] = "startraised" -> bad' = Threads /\ UNCHANGED fvars
     [] E[1] = "call" /\ E[2] = "stop" -> StopCalled /\ bad' = Threads
     [] E[1] = "ret" /\ E[2] = "stop" -> bad' = Threads \cup Chk(NF = 0 /\ NL = 0 /\ E[3] = "F", "StopLeft") /\ UNCHANGED fvars
     [] E[1] = "clear" -> Clear /\ bad' = Threads
